@@ -77,7 +77,9 @@ func NewAdditionalProperties(ruleValue bytes.Bytes) *AdditionalProperties {
 		c.mode = AdditionalPropertiesMustBeUserType
 		c.typeName = txt
 
-	case jschema.IsValidType(txtStr):
+	// "comment" is the type of a comment between the values of an enum in the
+	// AST, no value has it.
+	case jschema.IsValidType(txtStr) && txtStr != string(jschema.SchemaTypeComment):
 		c.astNode.TokenType = jschema.TokenTypeString
 		c.astNode.Value = txtStr
 		c.mode = AdditionalPropertiesMustBeSchemaType
